@@ -301,7 +301,8 @@ let run (cmd : string) (a : v) : v =
             (match iv with None -> S "none" | Some d -> L [vfid d.s_a; vfid d.s_g; vnat d.s_step]); vnat st ]) tr
   | "placement", L [I w; I k; I meth; I sym; I fsz; I isz; L layers; I fstep; I istep] ->
       let c = { pW = nat_of_int w; pk = nat_of_int k; pmeth = (match meth with 0 -> EigenPlain | 1 -> EigenPrediv | _ -> InverseM);
-                psym = (sym <> 0); pfsz = nat_of_int fsz; pisz = nat_of_int isz } in
+                psym = (sym <> 0); pfsz = nat_of_int fsz; pisz = nat_of_int isz;
+                pfdt = nat_of_int 0; pidt = nat_of_int 0; pgdt = nat_of_int 0 } in
       let ls = List.map (function L [I a; I g; I wa; I wg] -> { na = nat_of_int a; ng = nat_of_int g; wa = nat_of_int wa; wg = nat_of_int wg } | _ -> failwith "player") layers in
       vlist (fun ((mem, per), comm) ->
         L [ vnat mem;
@@ -349,10 +350,11 @@ let run (cmd : string) (a : v) : v =
       L [ L saved_view;
           L (List.map (fun r -> L (List.filter_map (fun n -> match after (nat_of_int r) (nat_of_int n) with Some t -> Some (L [I n; vnat t]) | None -> None) names)) (range w));
           L (List.map (fun r -> L (List.filter_map (fun n -> if recomputes fwf sl g (compute <> 0) (nat_of_int r) (nat_of_int n) then Some (I n) else None) names)) (range w)) ]
-  | "kfac_comm", L [I w; I k; I meth; I sym; I fsz; L layers; I cap; I hook; I acc; fus; ius; L hevs] ->
-      (* returns [members, per-rank issues [[g, kind, numel, root+1]...], global order] *)
+  | "kfac_comm", L [I w; I k; I meth; I sym; I fsz; L [I fdt; I idt; I gdt]; L layers; I cap; I hook; I acc; fus; ius; L hevs] ->
+      (* returns [members, per-rank issues [[g, kind, numel, dtype tag, root+1]...], global order] *)
       let c = { pW = nat_of_int w; pk = nat_of_int k; pmeth = (match meth with 0 -> EigenPlain | 1 -> EigenPrediv | _ -> InverseM);
-                psym = (sym <> 0); pfsz = nat_of_int fsz; pisz = nat_of_int fsz } in
+                psym = (sym <> 0); pfsz = nat_of_int fsz; pisz = nat_of_int fsz;
+                pfdt = nat_of_int fdt; pidt = nat_of_int idt; pgdt = nat_of_int gdt } in
       let ls = List.map (function L [I a; I g; I wa; I wg] -> { na = nat_of_int a; ng = nat_of_int g; wa = nat_of_int wa; wg = nat_of_int wg } | _ -> failwith "player") layers in
       let cfg = { c_hook = (hook <> 0); c_acc = nat_of_int acc; c_fus0 = hp_of fus; c_ius0 = hp_of ius } in
       let capo = if cap < 0 then None else Some (nat_of_int cap) in
@@ -361,13 +363,13 @@ let run (cmd : string) (a : v) : v =
         | L [S "flush"] -> HFlush
         | e -> HK (kev_of e) in
       let h = List.map hev hevs in
-      let vinst i = L [vnat i.igrp; vnat i.ikind; vnat i.inumel; vnat i.iroot] in
+      let vinst i = L [vnat i.igrp; vnat i.ikind; vnat i.inumel; vnat i.idtype; vnat i.iroot] in
       L [ vlist (vlist vnat) (kmembers c);
           L (List.map (fun r -> vlist vinst (kfac_issues cfg c capo ls (nat_of_int r) h)) (range w));
           vlist vinst (kfac_order cfg c capo ls h) ]
-  | "neox_comm", L [I pp; I dd; I mm; I sym; L stages; L evs] ->
+  | "neox_comm", L [I pp; I dd; I mm; I sym; L [I fdt; I xdt]; L stages; L evs] ->
       (* stages: per pipeline stage [[par(0 input|1 output), in, out, bias, rows, inv]...]; evs: ["fwd", i] | ["bwd", i] | ["step"] | ["user", [ns]] *)
-      let c = { nP = nat_of_int pp; nD = nat_of_int dd; nM = nat_of_int mm; nsym = (sym <> 0) } in
+      let c = { nP = nat_of_int pp; nD = nat_of_int dd; nM = nat_of_int mm; nsym = (sym <> 0); nfdt = nat_of_int fdt; nxdt = nat_of_int xdt } in
       let lay = function
         | L [I par; I nin; I nout; I hb; I rows; I inv] ->
             { x_par = (if par = 0 then ParInput else ParOutput); x_in = nat_of_int nin; x_out = nat_of_int nout; x_bias = (hb <> 0);
@@ -380,7 +382,7 @@ let run (cmd : string) (a : v) : v =
         | L [S "user"; L ns] -> NUser (List.map (fun x -> nat_of_int (geti x)) ns)
         | _ -> failwith "nxev" in
       let h = List.map ev evs in
-      let vinst i = L [vnat i.igrp; vnat i.ikind; vnat i.inumel; vnat i.iroot] in
+      let vinst i = L [vnat i.igrp; vnat i.ikind; vnat i.inumel; vnat i.idtype; vnat i.iroot] in
       L [ vlist (vlist vnat) (nmembers c);
           L (List.map (fun r -> vlist vinst (neox_issues c layers (nat_of_int r) h)) (range (pp * dd * mm)));
           vlist vinst (neox_order c layers h) ]
